@@ -235,6 +235,16 @@ fn judge(obs: &Obs, gt: &[u64], known: &[u64]) -> (String, Option<(&'static str,
     }
 }
 
+/// Whether the history had a snapshot when the actor made its last step
+/// (the served sample of that step record ends in `a`; a request does not
+/// change it).
+fn active_at_answer(name: &str, res: &RunResult) -> Option<bool> {
+    let tag = format!("{name}[");
+    res.trace.iter().rev().find(|rec| {
+        rec.split('+').any(|part| part.starts_with(&tag) && part.contains("done"))
+    }).and_then(|rec| rec.rsplit('=').next()).map(|v| v.ends_with('a'))
+}
+
 fn actor_result(
     name: &str, req: &Value, res: &RunResult, gt: &[u64], known: &[u64],
 ) -> (String, Vec<(&'static str, String)>) {
@@ -246,8 +256,13 @@ fn actor_result(
         else { vec![observe_http(kind, &v, res.session)] };
     let mut texts = Vec::new();
     let mut fails = Vec::new();
+    let active = active_at_answer(name, res);
     for o in &obs {
         let (t, f) = judge(o, gt, known);
+        if active == Some(false) && matches!(o, Obs::Full { .. } | Obs::Delta { .. }) {
+            fails.push(("served-before-first-update", format!(
+                "a data / change-set response ({t}) was given before the first validation completed")));
+        }
         texts.push(t);
         if let Some(f) = f { fails.push(f) }
     }
@@ -292,7 +307,9 @@ pub fn generated_inputs(ctx: &Ctx) -> Vec<Value> {
     for prelude in [vec![10u64], vec![], vec![10, 11]] {
         let serial0 = prelude.len().saturating_sub(1) as u64;
         let next = 10 + prelude.len() as u64;
-        let kinds: &[&str] = if thorough || prelude.len() == 1 { &all_kinds } else { &core_kinds };
+        let pre_kinds = ["data", "delta", "delta-noversion", "notify", "rtr-reset", "rtr-serial"];
+        let kinds: &[&str] = if thorough || prelude.len() == 1 { &all_kinds }
+            else if prelude.is_empty() { &pre_kinds } else { &core_kinds };
         for kind in kinds {
             let clients: Vec<u64> = if *kind == "delta" || *kind == "rtr-serial" {
                 let mut c = vec![serial0];
